@@ -137,7 +137,7 @@ xresp0_pipe_init(void *arg, nni_pipe *npipe, void *s)
 	nni_aio_init(&p->aio_send, xresp0_send_cb, p);
 
 	if ((rv = nni_msgq_init(&p->sendq, 2)) != 0) {
-		xresp0_pipe_fini(p);
+		// (the core runs our close, stop and fini for a failed init)
 		return (rv);
 	}
 
